@@ -1,8 +1,10 @@
 """Per-property texts for MANIFEST.json (kept next to the generator so they stay in step)."""
 
-TRUSTED = ("Trusted base: CPython, the serialisation libraries' own loaders, `cryptography`/`hashlib` primitives used by "
-           "the reference oracles, and the simulator itself (SimFS/SimEntropy/SimEnv/SimDNS model POSIX open/read/write "
-           "semantics incl. truncate-on-open, not a real disk). Sampling over seeds, not proof; bounded histories.")
+TRUSTED = ("Trusted base: CPython, the serialisation libraries' own loaders (json, PyYAML, bson, pickle, xml.etree), the "
+           "`cryptography`/`hashlib` primitives used by the reference oracles, the reference model in sim/model.py (written from "
+           "the field docstrings; cases the documentation leaves open are answered 'unspecified' and make no claim, DESIGN 8.1) "
+           "and the simulator itself (SimFS/SimEntropy/SimEnv/SimDNS model POSIX open/read/write incl. truncate-on-open, not a "
+           "real disk). Sampling over seeds, not proof; bounded histories (<= 40 operations, depth <= 3, small alphabets).")
 
 NOT_APPLICABLE = {
     "C04": "pure function of (tree, format, options): no file, clock, environment, randomness, shared state, history or "
@@ -13,16 +15,130 @@ NOT_APPLICABLE = {
            "which needs a captured stream, not a simulator (DESIGN 6)",
 }
 
+SIM = "deterministic simulation with fault injection: "
+
+
+def T(technique, level_text, ref):
+    return {"technique": SIM + technique, "level_text": level_text, "design_ref": ref, "level_note": TRUSTED}
+
+
 TEXTS = {
-    "C07": {
-        "technique": "deterministic simulation: seeded KeyFile context/encrypt/decrypt histories x external key-file states "
-                     "x read faults x restarts on SimFS, stepwise oracle against file-content/context-depth model",
-        "level_text": "Seeded exploration of histories (open/close nested key contexts, encrypt, decrypt, new KeyFile objects, "
-                      "external edits of the key file to absent/valid/other/empty/short/long/unreadable/unwritable-directory, "
-                      "transient read errors, restarts) against the real KeyFile class on a simulated disk with journaled "
-                      "entropy; every step is judged against a model of the file bytes and the context depth. Exploration is "
-                      "the right level: the property quantifies over unbounded histories and fault sequences.",
-        "design_ref": "DESIGN.md 5 (C07)",
-        "level_note": TRUSTED,
-    },
+    "C01": T("seeded histories over every mutation route (attribute, dotted path, constructor, map/config assigned to a "
+             "sub-configuration, tree/document loads in 5 formats, in-place typed list/dict mutators, resets, dynamic fields) with "
+             "valid/boundary/invalid/wrongly-typed values and injected validator faults; after every step every readable value "
+             "is checked against the reference model (holds), accepted assignments against norm() and a snapshot frame condition",
+             "Exploration of operation histories on generated schemas against the real classes on the simulated platform (SimFS "
+             "for filename fields, SimDNS for resolving hostnames). The property quantifies over unbounded histories and inputs, "
+             "so seeded search with a step-wise invariant is the right level; a clean batch is evidence, not proof.",
+             "DESIGN.md 5 (C01)"),
+    "C02": T("multi-session runs on SimFS: build a valid state, save in one of 5 formats (with options), restart (only the disk "
+             "survives), load into a fresh configuration built from fresh schema objects with the same key file, compare canonical "
+             "views, mutate, save in another format ...; key files generated in-run from journaled entropy",
+             "Exploration of save/restart/load chains over generated schemas (nested, lists of configurations, config types, typed "
+             "lists/dicts of bytes/secrets/digests, dynamic fields). Sessions and a disk that outlives them are what the existing "
+             "mocks cannot provide; exploration because states and schemas are unbounded.",
+             "DESIGN.md 5 (C02)"),
+    "C03": T("multi-session runs on SimFS with several key files: secrets at the root, in nested sub-configurations, config types "
+             "and list items; key-file (re)assignment at arbitrary points of the history; the bytes that reach the disk are scanned "
+             "for plaintext, parsed with the format's own loader, reference-decrypted with the model's key (nearest ancestor), "
+             "and the file-system journal of every save/load is compared with the set of key files the model allows",
+             "Exploration; the deciding evidence is the simulated disk's journal (which key files were opened or created) and "
+             "reference decryption pinning which key was used, across restarts.",
+             "DESIGN.md 5 (C03)"),
+    "C06": T("snapshots (values, user-defined flags, identity serials of nested configurations) around every failing operation "
+             "of the listed kinds in seeded histories: rejected assignments by all routes incl. injected validator faults, rejected "
+             "single-element list/dict insertions, torn/garbage/undecodable/wrong-root documents in every format (parse failure "
+             "decided by the underlying parser), unreadable files, and includes that are missing, directories, unreadable, "
+             "garbage, of another format, torn or failing with EIO",
+             "Exploration over reachable states x failing operations x faults (torn files, open errors, include-file states, "
+             "callback faults). Faults carry the property, so the fault-injecting simulator is the right tool.",
+             "DESIGN.md 5 (C06)"),
+    "C07": T("seeded KeyFile context/encrypt/decrypt histories x external key-file states (absent, valid, other, empty, short, "
+             "long, unreadable, unwritable directory) x transient read errors x restarts on SimFS with journaled entropy; step-wise "
+             "oracle against a file-content / context-depth model",
+             "Exploration of histories against the real KeyFile class on a simulated disk; every step is judged (key in use "
+             "recovered from XOR ciphertext / reference AES decrypt, file bytes before/after, entropy draw of a created key, "
+             "object scanned for retained key material).",
+             "DESIGN.md 5 (C07)"),
+    "C08": T("sessions over SimFS key files: every AES value's first 16 bytes must BE the entropy draw journaled for that call "
+             "(exact freshness) and the rest reference AES-256-CBC/PKCS7; XOR against key repeated; decrypt by other provider "
+             "objects / SecureField in later sessions; other key; external tampering of stored secrets (too short, unaligned, "
+             "unknown/missing method, wrong shape, bad base64)",
+             "Exploration; the seam-dependent clauses (fresh IV = exact entropy draw, cross-session/provider inversion, tampered "
+             "stored values) are what the simulator decides; the pure 'for all keys and byte strings' core is sampled on lengths "
+             "0..80, 1000 and non-UTF-8 bytes.",
+             "DESIGN.md 5 (C08)"),
+    "C09": T("challenge-field histories for all six algorithms: each assignment must journal exactly one entropy draw of "
+             "digest_size bytes that IS the stored salt; digest recomputed with hashlib; neighbourhood challenges; repr/str and "
+             "every byte written to SimFS scanned; save/restart/load keeps salt and digest byte-identical; hand-written plaintext "
+             "documents are hashed on load",
+             "Exploration across sessions and formats; salt freshness is checked exactly through the entropy seam rather than "
+             "statistically.",
+             "DESIGN.md 5 (C09)"),
+    "C10": T("at states reached by seeded histories (items appended to configuration lists, sub-configurations replaced by loads) "
+             "render with masks '', one character, longer, None via to_tree/dumps/save in every format; structural check of every "
+             "sensitive slot, byte scan of documents and SimFS for distinctive values, non-sensitive slots compared with the "
+             "unmasked rendering",
+             "Exploration (thin: no fault is essential; the simulator contributes reachable states, the disk and replay).",
+             "DESIGN.md 5 (C10)"),
+    "C11": T("histories over schemas with required fields, schema/field validators (harness closures recording what they "
+             "observed), feature flags and lists of configurations; load_tree/loads/validate/collecting mode/insertions judged "
+             "against an audit of the resulting state and the validator invocation log of exactly that call; injected validator "
+             "exceptions of arbitrary types",
+             "Exploration with the validator invocation log as recorded history; callback faults exercise error wrapping.",
+             "DESIGN.md 5 (C11)"),
+    "C12": T("histories of accepted/rejected assignments by all routes, loads, resets and constructor keywords over constant, "
+             "callable and absent defaults at every depth; fresh configurations, resets and loaded maps checked against the "
+             "declared defaults, callable-default invocation counters and is_value_defined for every field; frame conditions by "
+             "snapshot",
+             "Exploration of the defaults/user-defined/reset state machine; the model is the set of user-defined paths plus the "
+             "declared default exposure.",
+             "DESIGN.md 5 (C12)"),
+    "C13": T("several live configurations of one schema (A mutated, B1 built before and also mutated, B2 built after) plus a "
+             "control built from a separate identical schema instance; the seeded scheduler interleaves operations on A and B1; "
+             "after every step every other configuration's snapshot and the schema's snapshot (field set, options, declared "
+             "defaults, config types, shared item schemas) must be unchanged",
+             "Exploration; 'interleaving' here is the order of operations issued by several logical actors against shared "
+             "schema objects (the library has no threads).",
+             "DESIGN.md 5 (C13)"),
+    "C14": T("sessions whose process environment is fixed by the scheduler (each bound variable unset/empty/valid/invalid); "
+             "construction, loads, assignments, resets, restarts with another environment; variable names derived from the "
+             "descriptor by a reference naming rule; differential twin schema without bindings",
+             "Exploration over schema-level x field-level environment settings on top-down schemas to depth 3 and over session "
+             "environments; the environment seam (SimEnv) is owned by the simulator.",
+             "DESIGN.md 5 (C14)"),
+    "C15": T("every rejection in seeded histories (attribute, dotted path, constructor, map assigned to a sub-configuration, "
+             "tree and document loads in 5 formats with exactly one offending slot, injected validator exceptions) after index-"
+             "shifting list operations and replaced sub-configurations: exception type and ref_path/str() against the model's "
+             "full path incl. [index] and [key]",
+             "Exploration; paths depend on live parent/container links, which change with history - that is what the simulator "
+             "explores.",
+             "DESIGN.md 5 (C15)"),
+    "C16": T("at arbitrary states of a history: get_all_fields vs schema[path] vs config[path] vs attribute access vs "
+             "item_ref_path vs membership vs dotted assignment; the generated parser's options vs the model; real argv lists "
+             "(empty, subsets, invalid values, both boolean switches) through parse_args and cmdline_args_override with every kind "
+             "of ignore list, judged by snapshot frame conditions",
+             "Exploration (thin: no seam is essential; the simulator contributes reachable states, frame conditions, replay).",
+             "DESIGN.md 5 (C16)"),
+    "C17": T("a typed list/dict taken from a real configuration runs next to a built-in list/dict of reference-normalised items "
+             "through seeded operation histories (all mutators and queries, every iterable kind incl. iterators, generators, "
+             "index objects, non-dict mappings, proxies of the same/another field/configuration); contents, order, length, return "
+             "values, exception classes and typedness of copies/concatenations compared after every step",
+             "Exploration (thin): operation histories against an executable reference (the built-in container).",
+             "DESIGN.md 5 (C17)"),
+    "C18": T("the scheduler writes main and include documents (overlapping/disjoint keys, map/non-map conflicts, chains, nested "
+             "scopes, relative/absolute paths, start directories) to SimFS in each format; the loaded configuration is compared "
+             "with a twin that receives load_tree(reference deep merge); include-file faults (missing, directory, unreadable, "
+             "garbage, other format, torn, EIO) must fail the load and change nothing; combine_trees inputs compared before/after",
+             "Exploration with a differential oracle (independent 10-line reference merge applied scope by scope).",
+             "DESIGN.md 5 (C18)"),
+    "C19": T("fault enumeration: for each sampled reachable state and format, with the destination already holding a previous "
+             "successful save, a dry run on a cloned world counts every serialisation step (each field encoding, each key-file "
+             "open, each encryption, the formatter); the save is then re-executed once per step with exactly that step failing, "
+             "plus natural failures (unknown format, bad option, short/unreadable key file, unwritable key directory, value "
+             "outside the format's domain); after each, destination bytes and the SimFS journal (no open-for-write) are checked; "
+             "successful saves are compared with the formatter's bytes and re-loaded in a new session",
+             "Fault enumeration: exhaustive over the fault points of each sampled (state, format) pair, sampled over states. "
+             "SimFS truncates on open('wb') exactly like a real disk, so serialising after opening is caught at every step.",
+             "DESIGN.md 5 (C19)"),
 }
